@@ -96,6 +96,10 @@ structure Env where
   nfc : Name → Name
   /-- ncmpii_check_name(name, format) == NC_NOERR -/
   legal : Name → Bool
+  /-- code variant: does ncmpio_copy_att reject an extended-type attribute when the output file is
+      CDF-1/2 (NC_ESTRICTCDF2, as ncmpi_put_att does)?  false = the source before the repair of defect
+      C07-D1, true = with the repair.  The check finds out by execution which variant the tree follows. -/
+  copyChk : Bool := false
 
 structure Cfg where
   /-- hints nc_hash_size_dim / _var / _gattr / _vattr -/
@@ -394,6 +398,7 @@ def copyAtt (E : Env) (fin : File) (varidIn : Int) (raw : Name) (fout : File) (v
         match Ain.items[i]? with
         | none => (fout, NC_ENOTATT)
         | some ia =>
+          if E.copyChk = true ∧ fout.cfg.format ≤ 2 ∧ ia.xtype > 6 then (fout, NC_ESTRICTCDF2) else
           match Aout.find E.h (fout.asize varidOut) (E.nfc raw) with
           | some idx =>
             if same ∧ varidIn = varidOut then (fout, NC_NOERR)
